@@ -12,9 +12,9 @@ import (
 // Worker owns one real on-disk ledger (LedgerStoreImp.ExecuteBlock takes a global "saving block" lock,
 // so parallel exploration needs one ledger per worker; all workers are brought to the same committed state).
 type Worker struct {
-	ID  int
-	Ch  *polyenv.Chain
-	Dir string
+	ID   int
+	Ch   *polyenv.Chain
+	Dir  string
 	dry  *types.Block
 	dryH uint32
 }
